@@ -165,3 +165,95 @@ theorem eval_wrap (w : Wrapper) {ts : List T} {s s' : TS σ} (h : Eval W (.seq t
     | chainCall => exact ⟨_, Eval.seqChain _ _ _ h⟩
 
 end OlVerif.Ctrl
+
+namespace OlVerif.Ctrl
+
+theorem hasBreakL_anyIntL (b : List Sk) : hasBreakL b = true → anyIntL b = true := by
+  induction b with
+  | nil => simp [hasBreakL]
+  | cons s ss ih =>
+    simp only [hasBreakL, anyIntL, mayInt, Bool.or_eq_true, Bool.and_eq_true]
+    intro h
+    rcases h with (h | h) | ⟨h1, h2⟩
+    · exact Or.inl (Or.inl h)
+    · exact Or.inl (Or.inr (hasBC_mono s h))
+    · exact Or.inr ⟨h1, ih h2⟩
+
+/-- `anyIntL` is "some live return, break or continue" -/
+theorem anyIntL_iff (b : List Sk) : anyIntL b = (hasRetL b || hasBCL false b) := by
+  induction b with
+  | nil => simp [anyIntL, hasRetL, hasBCL]
+  | cons s ss ih =>
+    simp only [anyIntL, hasRetL, hasBCL, mayInt, ih]
+    cases hasRet s <;> cases hasBC false s <;> cases s.isDirect <;> cases hasRetL ss <;> cases hasBCL false ss <;> rfl
+
+mutual
+  /-- a guard inside a statement means the statement itself may interrupt (loop context) -/
+  theorem guardsInS_mayInt (s : Sk) : guardsInS .loop s = true → (hasRet s || hasBC false s) = true := by
+    cases s with
+    | ite c t e =>
+      simp only [guardsInS, hasRet, hasBC, Bool.or_eq_true]
+      intro h
+      rcases h with h | h
+      · have := guardsInL_int t h
+        simp only [Bool.or_eq_true] at this
+        rcases this with h' | h'
+        · exact Or.inl (Or.inl h')
+        · exact Or.inr (Or.inl h')
+      · have := guardsInL_int e h
+        simp only [Bool.or_eq_true] at this
+        rcases this with h' | h'
+        · exact Or.inl (Or.inr h')
+        · exact Or.inr (Or.inr h')
+    | whl c b e =>
+      simp only [guardsInS, hasRet, hasBC, Bool.or_eq_true]
+      intro h
+      have := guardsInL_int e h
+      simp only [Bool.or_eq_true] at this
+      rcases this with h' | h'
+      · exact Or.inl (Or.inr h')
+      · exact Or.inr h'
+    | for_ c b e =>
+      simp only [guardsInS, hasRet, hasBC, Bool.or_eq_true]
+      intro h
+      have := guardsInL_int e h
+      simp only [Bool.or_eq_true] at this
+      rcases this with h' | h'
+      · exact Or.inl (Or.inr h')
+      · exact Or.inr h'
+    | atom i => simp [guardsInS]
+    | pass => simp [guardsInS]
+    | brk => simp [guardsInS]
+    | cont => simp [guardsInS]
+    | ret v => simp [guardsInS]
+  theorem guardsInL_int (b : List Sk) : guardsInL .loop b = true → (hasRetL b || hasBCL false b) = true := by
+    cases b with
+    | nil => simp [guardsInL]
+    | cons s ss =>
+      simp only [guardsInL, hasRetL, hasBCL]
+      cases hd : s.isDirect
+      · simp only [Bool.false_eq_true, ↓reduceIte, Bool.or_eq_true, Bool.and_eq_true, Bool.not_false, Bool.true_and, mayInt]
+        intro h
+        rcases h with (⟨h, _⟩ | h) | h
+        · rcases h with h | h
+          · exact Or.inl (Or.inl h)
+          · exact Or.inr (Or.inl h)
+        · have := guardsInS_mayInt s h
+          simp only [Bool.or_eq_true] at this
+          rcases this with h' | h'
+          · exact Or.inl (Or.inl h')
+          · exact Or.inr (Or.inl h')
+        · have := guardsInL_int ss h
+          simp only [Bool.or_eq_true] at this
+          rcases this with h' | h'
+          · exact Or.inl (Or.inr h')
+          · exact Or.inr (Or.inr h')
+      · simp
+end
+
+theorem guardsInL_anyIntL (b : List Sk) : guardsInL .loop b = true → anyIntL b = true := by
+  intro h
+  rw [anyIntL_iff]
+  exact guardsInL_int b h
+
+end OlVerif.Ctrl
